@@ -5,6 +5,7 @@ CONSTANTS
   Permute = TRUE
   CheckOnTableHit = FALSE
   RepairFalseResult = TRUE
+  LinkStopsAtNegation = FALSE
 VIEW view
 INVARIANT NoDanglingMessages
 INVARIANT NoError
